@@ -117,7 +117,24 @@ def closure_of(it, f):
         return closure_func(it, f.args[0]), Sym('closure_env')
     if isinstance(f, Agg) and f.ty == 'closure':
         return closure_func(it, f.variant), f
+    if isinstance(f, Sym) and f.name == 'fnitem':
+        # a plain function of the crate passed by name (`.map(Self::helper)`)
+        name = re.sub(r'::<[^<>]*>$', '', f.args[0])
+        cands = [fn for n, fn in it.prog.funcs.items() if n == name or n.endswith('>::' + name.split('::')[-1]) or n.endswith('::' + name)]
+        cands = [fn for fn in cands if '{closure' not in fn.name]
+        if len(cands) == 1:
+            return cands[0], NO_ENV
     raise Unsupported('closure operand %r' % (f,))
+
+
+NO_ENV = Sym('no_env')
+
+
+def call_args(fn, env, extra):
+    """argument list of a callable: closures get their environment first, plain functions do not"""
+    if env is NO_ENV:
+        return list(extra)
+    return [closure_env(fn, env)] + list(extra)
 
 
 def closure_func(it, target):
@@ -279,7 +296,7 @@ def _dispatch(it, st, stack, fr, dest, c, args, ret_bb):
             if is_some:
                 return ok(o.fields[0].v)
             fn, env = closure_of(it, args[1])
-            return push_cont(it, stack, dest, fn, [closure_env(fn, env)], ret_bb, _wrap_err)
+            return push_cont(it, stack, dest, fn, call_args(fn, env, []), ret_bb, _wrap_err)
         if op in ('cloned', 'copied'):
             return some(clone(deref(o.fields[0].v))) if is_some else NONE()
         if op in ('as_ref', 'as_mut'):
@@ -307,7 +324,7 @@ def _dispatch(it, st, stack, fr, dest, c, args, ret_bb):
             caller = stack.pop()
             stack.append((caller[0], caller[1], ('filter_keep', dest, keep), ret_bb))
             nfr = {}
-            for (loc, _ty), v in zip(fn.args, [closure_env(fn, env), Ref(o.fields[0])]):
+            for (loc, _ty), v in zip(fn.args, call_args(fn, env, [Ref(o.fields[0])])):
                 nfr[loc] = Cell(v)
             stack.append((fn, nfr, 'bb0', 0))
             return 'PUSHED'
@@ -315,7 +332,7 @@ def _dispatch(it, st, stack, fr, dest, c, args, ret_bb):
             if not is_some:
                 return NONE()
             fn, env = closure_of(it, args[1])
-            return push_cont(it, stack, dest, fn, [closure_env(fn, env), o.fields[0].v], ret_bb, _wrap_some if op == 'map' else _ident)
+            return push_cont(it, stack, dest, fn, call_args(fn, env, [o.fields[0].v]), ret_bb, _wrap_some if op == 'map' else _ident)
     m = re.match(r'^Result::<.*?>::(map_err|is_ok|is_err|ok)(::<.*>)?$', c)
     if m:
         op = m.group(1)
@@ -329,7 +346,7 @@ def _dispatch(it, st, stack, fr, dest, c, args, ret_bb):
         if v.variant == 'Ok':
             return v
         fn, env = closure_of(it, args[1])
-        return push_cont(it, stack, dest, fn, [closure_env(fn, env), v.fields[0].v], ret_bb, _wrap_err)
+        return push_cont(it, stack, dest, fn, call_args(fn, env, [v.fields[0].v]), ret_bb, _wrap_err)
     m = re.search(r' as PartialEq(<.*>)?>::(eq|ne)$', c)
     if m:
         r = values_eq(args[0], args[1])
